@@ -14,12 +14,10 @@ ID = 'C07'
 LEAN_MODULE = 'Proofs.C07'
 THEOREMS = ['Fsic.C07.' + n for n in [
     'fortran_numbering', 'fortran_numbers_distinct', 'fortran_index_rewrite', 'rewrite_expression_text',
-    'fortran_index_rewrite_cell',
-    'kind_safe_agree', 'kind_safe_assign_agree', 'full_agree_false_at_half', 'full_agree_false_at_tenth',
-    'evaluate_agree', 'fortran_loop_eq_python_loop', 'fortran_solveT_eq_python_partial',
-    'fortran_solveT_false_at_shifted_check', 'fortran_solveT_false_at_max_iter_zero',
-    'fortran_solveT_false_at_infeasible_period', 'fortran_check_rows_shifted', 'fortran_row_zero_alias',
-    'fortran_solve_eq_fold', 'error_codes_consistent']]
+    'fortran_index_rewrite_cell', 'kind_safe_agree', 'kind_safe_assign_agree', 'full_agree_false_at_half',
+    'full_agree_false_at_tenth', 'evaluate_agree', 'fortran_loop_eq_python_loop', 'fortran_solveT_eq_python',
+    'fortran_check_rows_aligned', 'fortran_solve_eq_fold', 'fortran_solve_eq_python_solveList',
+    'fortran_solve_eq_python_solve', 'error_codes_consistent']]
 RULE = ('programs from an own grammar (1-6 equations, shared variables, parameters {a}, errors <e>, lags/leads up to 3, '
         'integer and decimal literals, + - * / ** unary minus parentheses exp log max min abs, long sums over dozens of '
         'variables that need continuation lines) plus a fixed list of designed programs (convergence exactly at tol, '
@@ -38,10 +36,10 @@ ASSUMPTIONS = ['values stay finite (the property text); non-finite data is used 
                'non-empty span of integer labels 0..n-1; -n <= t < n except where stated']
 
 META = {
-    "text": "PARTIAL. Proved in Lean for the model M5 of fsic/fortran.py: the Fortran numbering is 1 + the position in the Python class's NAMES; the regex rewrite turns NAME[t+k] into solved_values(i, index+k) (character-level scanner, and for whole rendered expressions) and with index = t+1 that is the same storage cell for every offset; for every expression satisfying the decidable predicate KindSafe and every interpretation of the real operators (two real kinds with a widening map) the Fortran denotation of the rewritten expression equals the Python denotation, hence a whole evaluate pass agrees; the template's solve_t loop equals M1's Python loop on finite data (converged flag, iteration count incl. the iteration-1 adjustment, state) and the whole wrapper solve_t equals BaseModel.solve_t under explicit guards; solve is a fold of solve_t with early exit; the error codes the wrapper dispatches on are the integers declared in the template (decide over reflected tables). The unguarded statements are FALSE of the current code and their negations are proved at witnesses: 1/2 (integer division), 0.1 (single-precision literal), convergence rows passed 0-based to 1-based Fortran, max_iter=0 (error code -1), infeasible explicit period. NOT covered by the proof: what gfortran's generated code computes in floating point, libm (exp/log/pow agree only to rounding), and the ctypes shim that stands in for f2py; these are exercised only by the differential check (compiled module vs Python class on generated programs and data).",
+    "text": "PARTIAL. Proved in Lean for the model M5 of fsic/fortran.py (as repaired by c07-fix1..4): the Fortran numbering is 1 + the position in the Python class's NAMES; the regex rewrite turns NAME[t+k] into solved_values(i, index+k) (character-level scanner; for whole rendered equations the rewritten text is the renumbered tree) and with index = t+1 that is the same storage cell for every offset; the convergence rows the wrapper passes (names.index(x)+1) are the cells Python's check reads; for every expression satisfying the decidable predicate KindSafe and every interpretation of the real operators (two real kinds with a widening map) the Fortran denotation of the rewritten expression equals the Python denotation, hence a whole evaluate pass agrees; on finite data the template's solve_t loop equals M1's Python loop, the whole FortranEngine.solve_t equals BaseModel.solve_t (world and result, every option set with documented strings incl. max_iter<=0 and infeasible periods), the template's solve is a fold of solve_t with early exit, and FortranEngine.solve equals SolverMixin.solve (period loop, start/end resolution); the error codes the wrapper dispatches on are the integers declared in the template (decide over reflected tables). The statement about expressions without KindSafe is FALSE of the current code and its negation is proved at 1/2 (integer division) and 0.1 (single-precision literal). NOT covered by the proof: what gfortran's generated code computes in floating point, libm (exp/log/pow and real**integer agree only to rounding), and the ctypes shim that stands in for f2py; these are exercised only by the differential check (compiled module vs Python class on generated programs and data).",
     "design_ref": "DESIGN.md §5 M5, §6 C07, §7 row 16",
-    "note": "Trusted: Lean kernel; axioms propext/Classical.choice/Quot.sound; gfortran 12, libm, the gfortran+ctypes shim replacing f2py (f2py cannot build here); the correspondence harness, which ties the model to the code on generated programs only. Values are compared bit-exactly where only + - * / on doubles are involved and within 4 ulp (single pass) where libm or real**integer is involved. Known findings (open): int-division, int-power-negative-exponent, single-precision-literal, single-precision-arithmetic, int-arg-intrinsic-compile, infeasible-period-mismatch, convergence-variables-zero-based, max-iter-zero-engine-error.",
-    "technique": "Lean 4 proof (structural induction on expressions and on the iteration fuel, decide over reflected code tables) + differential check of gfortran-compiled modules against the Python class"
+    "note": "Trusted: Lean kernel; axioms propext/Classical.choice/Quot.sound; gfortran 12, libm, the gfortran+ctypes shim replacing f2py (f2py cannot build here); the correspondence harness, which ties the model to the code on generated programs only. Values are compared bit-exactly where only + - * / on doubles are involved, within 4 ulp for a single libm result and 1e-12 relative to max(1,|v|) where libm results chain within a pass. Open known findings: int-division, int-power-negative-exponent, single-precision-literal, single-precision-arithmetic, int-arg-intrinsic-compile, infeasible-period-evaluate. Fixed (a recurrence is a new violation): convergence-variables-zero-based, max-iter-zero-engine-error, infeasible-period-mismatch, solve-continues-after-offset-error.",
+    "technique": "Lean 4 proof (structural induction on expressions, on the iteration fuel and on the period list; decide over reflected code tables) + differential check of gfortran-compiled modules against the Python class"
 }
 
 TOL_ULP = 4
@@ -169,12 +167,13 @@ def run_call(cls, n, data, call):
     return snapshot(m, tag)
 
 
-# ---- the Python class with its convergence rows shifted the way the compiled module reads them ----------------
-# FortranEngine passes `[self.names.index(x) for x in self.check]` (0-based) as `convergence_variables`, and the
-# template indexes `solved_values(convergence_variables, index)` 1-based: row i reads variable i-1, and row 0 reads
-# the storage cell before the column, i.e. the last variable of the previous period (the shim places a 0.0 before the
-# block).  `twin_call` runs the *pure-Python* class with exactly that check vector; a Fortran result that equals the
-# twin's but not the Python class's is attributed to the known finding `convergence-variables-zero-based`.
+# ---- the Python class with its convergence rows shifted by one ----------------------------------------------------
+# Before c07-fix1 FortranEngine passed `[self.names.index(x) for x in self.check]` (0-based) as
+# `convergence_variables` while the template indexes `solved_values(convergence_variables, index)` 1-based: row i read
+# variable i-1, and row 0 the storage cell before the column, i.e. the last variable of the previous period (the shim
+# places a 0.0 before the block).  `twin_call` runs the *pure-Python* class with exactly that check vector; a Fortran
+# result that equals the twin's but not the Python class's gets the key `convergence-variables-zero-based` (a fixed
+# finding: its recurrence is reported as a new violation under that name).
 
 def twin_call(P, n, data, call):
     m = make_instance(P, n, data)
@@ -248,6 +247,11 @@ def rel_close(a, b, rel):
             if abs(fx - fy) > rel * max(abs(fx), abs(fy)) + 1e-300:
                 return False
     return True
+
+
+def mask_cols(obs, cols):
+    """The observation with the given period columns blanked."""
+    return dict(obs, vals=[[0 if i in cols else b for i, b in enumerate(row)] for row in obs['vals']])
 
 
 def all_finite(obs):
@@ -406,12 +410,17 @@ def classify(prog, call, n, lags, leads, F, P, twin_fn):
             and F['tag'] == 'IndexError' and P['tag'] == 'IndexError' and periods is not None
             and any(not 0 <= p + call['opts']['offset'] < n for p in periods)):
         # the template's solve() only `return`s on an error when error_control is 'raise'; with any other setting it
-        # goes on solving the later periods after an offset error, and the wrapper stores those values before raising
-        return ('solve-continues-after-offset-error', what)
+        # goes on solving the later periods after an offset error, and the wrapper stores those values before raising.
+        # Explained by that defect iff the two classes differ only in periods after the offending one.
+        first = min(p for p in periods if not 0 <= p + call['opts']['offset'] < n)
+        later = {p for p in periods if p > first}
+        if same_control(F, P) and values_agree(mask_cols(F, later), mask_cols(P, later), libm, iterated):
+            return ('solve-continues-after-offset-error', what)
     # explicit infeasible period: the compiled module refuses with its own error code
     if periods is not None and any(not feasible(p, n, lags, leads) for p in periods):
-        want = 'IndexError' if call['call'] == 'evaluate' else 'FortranEngineError'
-        if F['tag'] == want:
+        if call['call'] == 'evaluate' and F['tag'] == 'IndexError':
+            return ('infeasible-period-evaluate', what)
+        if call['call'] != 'evaluate' and F['tag'] == 'FortranEngineError':
             return ('infeasible-period-mismatch', what)
         # otherwise the call ended earlier for another reason: judged by the rules below
     if iterated and call['opts']['max_iter'] <= 0 and call['opts']['min_iter'] <= call['opts']['max_iter']:
@@ -781,6 +790,9 @@ def process_program(job):
             else:
                 count('differs:' + verdict[0])
                 out['violations'].append({'key': verdict[0], 'what': verdict[1], 'case': case})
+            if os.environ.get('C07_DUMP_OBS'):   # self-test aid: what the Fortran class did on every call
+                out.setdefault('fobs', []).append((json.dumps([prog['script'], call], sort_keys=True), obs_str(Fo),
+                                                   obs_str(Po), None if verdict is None else verdict[0]))
             nontrivial = Fo['tag'] not in ('ValueError', 'KeyError') and verdict != ('skip', 'non-finite')
             out['cases'].append((json.dumps([prog['script'], data, call], sort_keys=True), nontrivial))
             in_span = call['call'] != 'solve_t' or -n <= call['t'] < n   # the models assume -n <= t < n for solve_t
@@ -884,6 +896,8 @@ def run(ctx, rep):
             rep.violate(v['key'], v['what'], v['case'])
         for key, nontrivial in out['cases']:
             rep.case(key, nontrivial=nontrivial)
+        if out.get('fobs'):
+            rep.__dict__.setdefault('fobs', []).extend(out['fobs'])
         if out['text'] is not None:
             text_reqs.append(out['text'])
         model_reqs += out['model']
@@ -943,7 +957,16 @@ def search(ctx, rep, disagreements):
     run(ctx, rep)
 
 
-def replay(ctx, rep, case):
+def _replay_here(case):
+    """Replay one case in *this* process; returns (lines to print, [(key, what)])."""
+    lines, viol = [], []
+
+    class _Rep:
+        @staticmethod
+        def violate(key, what, c):
+            viol.append((key, what))
+    rep = _Rep()
+    print = lines.append  # noqa: A001
     prog = {'script': case['script'], 'eqs': case.get('ast', []), 'env': case.get('env', {})}
     feats = set()
     for eq in prog['eqs']:
@@ -955,20 +978,20 @@ def replay(ctx, rep, case):
         try:
             symbols, P, F, text, log = build_classes(prog, work)
         except CodegenError as e:
-            print('  build_fortran_definition raised', e)
+            print('  build_fortran_definition raised ' + str(e))
             rep.violate('codegen-raises', str(e), case)
-            return
+            return lines, viol
         if F is None:
-            print('  generated Fortran does not compile:', [l for l in log.splitlines() if 'Error' in l][:2])
+            print('  generated Fortran does not compile: ' + str([l for l in log.splitlines() if 'Error' in l][:2]))
             rep.violate('does-not-compile', 'compile error', case)
-            return
+            return lines, viol
         if 'call' not in case:
             print('  compiles')
-            return
+            return lines, viol
         n, data, call = case['n'], case['data'], case['call']
         Fo, Po = run_call(F, n, data, call), run_call(P, n, data, call)
-        print('  fortran:', obs_str(Fo)[:300])
-        print('  python :', obs_str(Po)[:300])
+        print('  fortran: ' + obs_str(Fo)[:300])
+        print('  python : ' + obs_str(Po)[:300])
         def twin_fn(c=None):
             if c == 'perturb':
                 return twin_call(P, n, {k: [bits(unbits(b) * (1 + 1e-15)) for b in row] for k, row in data.items()}, call)
@@ -978,3 +1001,19 @@ def replay(ctx, rep, case):
             rep.violate(v[0], v[1], case)
     finally:
         shutil.rmtree(work, ignore_errors=True)
+    return lines, viol
+
+
+def replay(ctx, rep, case):
+    """Replay in a forked child: a compiled module that crashes must not take the check down with it."""
+    from concurrent.futures import ProcessPoolExecutor
+    from concurrent.futures.process import BrokenProcessPool
+    try:
+        with ProcessPoolExecutor(max_workers=1, mp_context=multiprocessing.get_context('fork')) as ex:
+            lines, viol = ex.submit(_replay_here, case).result(timeout=900)
+    except BrokenProcessPool:
+        lines, viol = ['  the process running the compiled module died'], [('engine-crash', 'the process running the compiled module died')]
+    for l in lines:
+        print(l)
+    for key, what in viol:
+        rep.violate(key, what, case)
